@@ -35,6 +35,9 @@ def main():
         return 2
     rep = report.Report(pid, a.tier, seed)
     try:
+        from . import guards
+        from .ctx import Ctx
+        guards.translator_validation(Ctx.get(), rep, seed)
         stubs = mod.run(rep, a.tier, seed, a.budget)
     except BaseException as ex:  # noqa
         import traceback
